@@ -130,6 +130,13 @@ class AssertionGenerator(cv.ChromosomeVisitor):
                     self._filtering_executor.execute_multiple(shuffled_copy),
                     strict=True,
                 ):
+                    if result.timeout:
+                        # Nothing was verified in this execution: keep no unverified value assertion.
+                        for statement in test.statements():
+                            statement.assertions[:] = [
+                                a for a in statement.assertions if isinstance(a, ass.ExceptionAssertion)
+                            ]
+                        continue
                     self.__remove_non_holding_assertions(test, result)
 
     @staticmethod
